@@ -9,4 +9,6 @@ INVARIANT C_Transitive
 INVARIANT C_Hash
 INVARIANT C_Refines
 INVARIANT C_Contains
-INVARIANT KnownOnce
+INVARIANT C_NoRaise
+INVARIANT C_Derived
+INVARIANT OpenOnce
